@@ -141,7 +141,10 @@ class Message(BaseMessage):
             raise ValueError('copy must be same message type')
 
         if 'data' in overrides:
-            overrides['data'] = bytearray(overrides['data'])
+            # Materialise generators (they can only be consumed once).
+            # tuple() rather than bytearray(): bytearray(5) is five zero
+            # bytes, so an int was silently accepted as sysex data.
+            overrides['data'] = tuple(overrides['data'])
 
         msgdict = vars(self).copy()
         msgdict.update(overrides)
